@@ -624,9 +624,10 @@ impl Exec {
 					}
 				}
 				self.mutated = true;
-				if armed04 {
-					// the result of a resolution always has a scheme: it must be a full URI/IRI,
-					// whichever entry point produced it
+				if armed04 && *by_value {
+					// into_resolved hands the buffer back as a UriBuf/IriBuf: that is the type it
+					// must re-parse as (for the in-place form the type stays the reference type;
+					// that the result has a scheme is C06, not C04)
 					let full = if iri { Kind::IriBuf } else { Kind::UriBuf };
 					if let Err(m) = well_formed(full, self.text()) {
 						let t = self.text().to_vec();
